@@ -14,10 +14,13 @@ ID = 'C15'
 LEAN_MODULE = 'Proofs.C15'
 THEOREMS = ['Fsic.C15.' + n for n in [
     'template_skeletons_equal', 'template_statements_equal', 'templates_parsed', 'expressions_selected',
-    'selected_in_symbol_order', 'converter_called_once_each', 'no_equation_no_code', 'no_equation_pass',
+    'selected_in_symbol_order', 'selected_append', 'selected_keeps_relative_order', 'converter_called_once_each', 'no_equation_no_code', 'no_equation_pass',
     'statement_defines_one', 'every_statement_contributes', 'body_equation_count',
     'indent_only_prefixes', 'converter_verbatim', 'lists_ignore_equations', 'empty_lists', 'empty_model_solves']]
-RULE = ('grammar programs (gen_scripts.gen_program with verbatim fragments and named periods) extended with fenced '
+RULE = ('two streams. (a) symbol LISTS that no single parse_model() call returns: permutations, concatenations of two '
+        'models (with and without shared names), verbatim symbols before/between equations, repeated symbols, a verbatim '
+        'block rescaling a variable that a later equation reads (order observable in the results, checked against running '
+        'each symbol\'s code in list order). (b) grammar programs (gen_scripts.gen_program with verbatim fragments and named periods) extended with fenced '
         'verbatim blocks (incl. blank lines and nested indentation), plus the empty script, verbatim-only scripts and '
         'symbol lists with the equation of one endogenous symbol removed; crossed with with_type_hints in {True,False} x '
         'lag/lead settings (default + rows of the C03 Latin design) x converter in {default, identity-on-code, wrapping '
@@ -88,6 +91,128 @@ def symbols_of(case, prog):
     return text, symbols
 
 
+LIST_OPS = ['perm', 'verb-first', 'interleave', 'concat', 'concat-interleave', 'dup', 'rescale-before', 'rescale-between',
+            'concat-dupnames']
+
+
+def gen_list_case(rng):
+    """A symbol LIST that is not the output of one parse_model() call: permuted, concatenated from two models, verbatim
+    symbols before / between the equations, repeated symbols, a verbatim block that rescales a variable a later equation
+    reads (so that the order of the code blocks is observable in the evaluation results)."""
+    n = 10
+    labels = [str(2000 + i) for i in range(n)] if rng.random() < 0.5 else list(range(2000, 2000 + n))
+    op = rng.choice(LIST_OPS)
+    pool = list(gs.VAR_POOL)
+    rng.shuffle(pool)
+    cfg1 = gs.GenConfig(allow_named_periods=True, span_labels=labels, allow_verbatim=True, max_equations=rng.choice([1, 2, 3]),
+                        max_lag=2, max_lead=2, var_pool=pool[:12])
+    dupnames = op == 'concat-dupnames'
+    cfg2 = gs.GenConfig(allow_named_periods=True, span_labels=labels, allow_verbatim=True, max_equations=rng.choice([1, 2]),
+                        max_lag=2, max_lead=2, var_pool=pool[:12] if dupnames else pool[12:],
+                        allow_params=dupnames, allow_errors=dupnames)
+
+    def with_blocks(prog):
+        st = list(prog.statements)
+        for _ in range(rng.randint(0, 2)):
+            st.insert(rng.randint(0, len(st)), gs.VerbatimBlock(rng.choice(VERB_BLOCKS)))
+        return gs.Program(st)
+    return {'prog': repr(with_blocks(gs.gen_program(rng, cfg1))), 'prog2': repr(with_blocks(gs.gen_program(rng, cfg2))),
+            'labels': labels, 'shape': 'list:' + op, 'listop': op, 'strip': False, 'strip_pick': 0.0,
+            'data_seed': rng.randrange(1 << 30), 'list_seed': rng.randrange(1 << 30)}
+
+
+def rescale_symbol(name):
+    code = f'self._{name}[t] = self._{name}[t] * 2.0 + 1.0'
+    return P.Symbol(name=None, type=P.Type.VERBATIM, lags=None, leads=None, equation=f'```\n{code}\n```', code=code)
+
+
+def list_symbols(case):
+    """The symbol list of a `gen_list_case` (deterministic in the case alone)."""
+    rng = random.Random(case['list_seed'])
+    op = case['listop']
+    prog = program_of(case)
+    prog2 = eval(case['prog2'], dict(vars(gs)))
+    a = pc.parse_model(gs.render(prog))
+    b = pc.parse_model(gs.render(prog2))
+    progs = [prog]
+    syms = list(a)
+    if op.startswith('concat'):
+        syms = list(a) + list(b)
+        progs.append(prog2)
+    verb = [s for s in syms if s.type == P.Type.VERBATIM]
+    rest = [s for s in syms if s.type != P.Type.VERBATIM]
+    if op == 'perm':
+        rng.shuffle(syms)
+    elif op == 'verb-first':
+        syms = verb + rest
+    elif op in ('interleave', 'concat-interleave'):
+        syms = list(rest)
+        for v in verb:
+            syms.insert(rng.randint(0, len(syms)), v)
+    elif op == 'dup':
+        carrying = [s for s in syms if carries(s)]
+        for _ in range(rng.randint(1, 2)):
+            if carrying:
+                syms.insert(rng.randint(0, len(syms)), rng.choice(carrying))
+    elif op in ('rescale-before', 'rescale-between'):
+        # a verbatim block that changes a variable which a later equation reads in the same period
+        target = None
+        for i, s_ in enumerate(syms):
+            if s_.type == P.Type.ENDOGENOUS and s_.code:
+                reads = [x.name for x in syms if x.type in (P.Type.EXOGENOUS, P.Type.ENDOGENOUS) and x.name != s_.name
+                         and f'self._{x.name}[t]' in s_.code.split('=', 1)[1]]
+                if reads:
+                    target = (i, reads[0])
+                    break
+        if target is not None:
+            i, name = target
+            pos = i if op == 'rescale-before' else rng.randint(0, i)
+            syms.insert(pos, rescale_symbol(name))
+            syms.append(rescale_symbol(name))
+        else:
+            rng.shuffle(syms)
+    return progs, syms
+
+
+def materialise(case):
+    """(text for the record, symbol list, programs whose offsets/names matter)."""
+    prog = program_of(case)
+    if case.get('listop'):
+        progs, symbols = list_symbols(case)
+        return ' || '.join(gs.render(p) for p in progs) + ' || op=' + case['listop'], symbols, progs
+    text, symbols = symbols_of(case, prog)
+    return text, symbols, [prog]
+
+
+def reference_evaluate(symbols, labels, names_data, periods, kw):
+    """Independent of build_model_definition's own code block: a class built from the same symbols WITHOUT any code,
+    then every code-carrying symbol's `code` executed in symbol-list order.  Same output format as `evaluate`."""
+    Bare = P.build_model([s_._replace(equation=None, code=None) for s_ in symbols], **kw)
+    out = []
+    for t in periods:
+        exc = None
+        vals = None
+        try:
+            m = Bare(list(labels))
+            for name, arr in names_data.items():
+                if name in m.names:
+                    m[name] = arr.copy()
+            env = {'self': m, 't': t, 'np': np, 'errors': 'raise', 'catch_first_error': True, 'iteration': None, 'kwargs': {}}
+            with warnings.catch_warnings():
+                warnings.simplefilter('ignore')
+                try:
+                    for s_ in symbols:
+                        if carries(s_):
+                            exec(s_.code, env)
+                except Exception as e:  # noqa: BLE001
+                    exc = pc.exc_name(e)
+            vals = [[bits(v) for v in m[name]] for name in m.names]
+        except Exception as e:  # noqa: BLE001
+            exc = 'init:' + pc.exc_name(e)
+        out.append((t, exc, vals))
+    return out
+
+
 def carries(s):
     return s.type in (P.Type.ENDOGENOUS, P.Type.VERBATIM) and s.equation is not None and s.code is not None
 
@@ -126,10 +251,14 @@ def evaluate(Model, labels, names_data, periods):
     """`_evaluate` at each period on a fresh instance; (exception class or None, all values as bit patterns)."""
     out = []
     for t in periods:
-        m = Model(list(labels))
-        for name, arr in names_data.items():
-            if name in m.names:
-                m[name] = arr.copy()
+        try:
+            m = Model(list(labels))
+            for name, arr in names_data.items():
+                if name in m.names:
+                    m[name] = arr.copy()
+        except Exception as e:  # noqa: BLE001  (e.g. a symbol list with a repeated name)
+            out.append((t, 'init:' + pc.exc_name(e), None))
+            continue
         exc = None
         with warnings.catch_warnings():
             warnings.simplefilter('ignore')
@@ -171,21 +300,27 @@ def indent_ok(piece, body_piece):
 
 
 def run_case(ctx, rep, case, batch):
-    prog = program_of(case)
-    text, symbols = symbols_of(case, prog)
+    text, symbols, progs = materialise(case)
     case['text'] = text
     rep.dist['shape:' + case['shape'] + ('+stripped-' + str(case['strip']) if case['strip'] and any(s.type == P.Type.ENDOGENOUS for s in symbols) else '')] += 1
+    if case.get('listop'):
+        carrying = [s for s in symbols if carries(s)]
+        kinds = [s.type == P.Type.VERBATIM for s in carrying]
+        rep.dist['list:rescaling-block'] += sum(1 for s in symbols if s.type == P.Type.VERBATIM and s.code and '* 2.0 + 1.0' in s.code) > 0
+        rep.dist['list:verbatim-before-equation' if any(v and not all(kinds[i:]) for i, v in enumerate(kinds)) else 'list:verbatim-last'] += 1
     rng = random.Random(case['data_seed'])   # drawn from ctx.sub_rng by gen_case: replays need no seed
     import props.c03 as c03
     latin = c03.latin_options()
     opt_sets = [OPTS_DEFAULT] + rng.sample(latin, 2 if ctx.tier == 'quick' else 5)
-    offs = pc.all_offsets(prog) or [0]
+    offs = [k for p_ in progs for k in pc.all_offsets(p_)] or [0]
     n = len(case['labels'])
     periods = [t for t in range(n) if all(0 <= t + k < n for k in offs)]
     if len(periods) > 3:
         periods = [periods[0], periods[len(periods) // 2], periods[-1]]
     drng = np.random.default_rng(case['data_seed'])
-    data = {name: drng.uniform(0.5, 3.0, n) for name in gs.all_names(prog)}
+    data = {name: drng.uniform(0.5, 3.0, n) for p_ in progs for name in gs.all_names(p_)}
+    all_names_ = [s.name for s in symbols if s.type in (P.Type.ENDOGENOUS, P.Type.EXOGENOUS, P.Type.PARAMETER, P.Type.ERROR)]
+    dupfree = len(set(all_names_)) == len(all_names_)
     expected_log = [s for s in symbols if carries(s)]
     sym_j = pc.syms_json(symbols)
 
@@ -194,8 +329,7 @@ def run_case(ctx, rep, case, batch):
         for cname, conv in pc.CONVERTERS.items():
             if cname == 'empty' and rng.random() < 0.7:
                 continue
-            info = {'prog': case['prog'], 'labels': case['labels'], 'shape': case['shape'], 'strip': case['strip'],
-                    'strip_pick': case['strip_pick'], 'data_seed': case['data_seed'], 'text': text, 'opts': o, 'converter': cname}
+            info = {k: v for k, v in case.items() if k != 'text'} | {'text': text, 'opts': o, 'converter': cname}
             variants = {}
             logs = {}
             bodies = {}
@@ -236,6 +370,15 @@ def run_case(ctx, rep, case, batch):
             ref_key = (True, 'build_model')
             ref_attrs = class_attrs(variants[ref_key])
             ref_eval = evaluate(variants[ref_key], case['labels'], data, periods)
+            # the code blocks run in SYMBOL-LIST order: compare with executing each symbol's code in that order
+            if dupfree and cname in ('default', 'code', 'wrap'):
+                want_eval = reference_evaluate(symbols, case['labels'], data, periods, kw)
+                rep.dist['order-oracle:evaluated'] += 1
+                if want_eval != ref_eval:
+                    bad = next(((x, y) for x, y in zip(ref_eval, want_eval) if x != y), None)
+                    rep.violate('evaluation-order', 'the built class does not evaluate the code blocks in symbol-list order: at period '
+                                f'{bad[0][0] if bad else None} the results differ from running each symbol\'s code in list order '
+                                f'(exceptions: built {bad[0][1] if bad else None}, in-order {bad[1][1] if bad else None})', info)
             for key, M in variants.items():
                 if key == ref_key:
                     continue
@@ -291,8 +434,7 @@ def run_case(ctx, rep, case, batch):
 
 
 def trivial_solve(ctx, rep, case, symbols, batch):
-    info = {'prog': case['prog'], 'labels': case['labels'], 'shape': case['shape'], 'strip': case['strip'],
-            'strip_pick': case['strip_pick'], 'data_seed': case['data_seed'], 'text': case['text'], 'what': 'trivial-solve'}
+    info = {k: v for k, v in case.items()} | {'what': 'trivial-solve'}
     for typed in (True, False):
         for min_iter, max_iter in ((0, 100), (3, 5), (2, 2), (0, 1)):
             try:
@@ -389,7 +531,7 @@ def namespace_note(rep):
 
 
 def run(ctx, rep):
-    n_cases = (320 if ctx.tier == 'quick' else 2500) * ctx.scale
+    n_cases = (220 if ctx.tier == 'quick' else 2500) * ctx.scale
     text_level_correspondence(ctx, rep)
     namespace_note(rep)
     batch = []
@@ -404,8 +546,31 @@ def run(ctx, rep):
         run_case(ctx, rep, case, batch)
         if len(batch) > 20000:
             flush(ctx, rep, batch)
+    n_lists = (260 if ctx.tier == 'quick' else 2500) * ctx.scale
+    for i in range(n_lists):
+        case = gen_list_case(ctx.sub_rng('symlist', i))
+        run_case(ctx, rep, case, batch)
+        if len(batch) > 20000:
+            flush(ctx, rep, batch)
+    for case in fixed_list_cases():
+        run_case(ctx, rep, case, batch)
     flush(ctx, rep, batch)
+    rep.notes.append(f'{n_lists} hand-assembled symbol lists (permuted / concatenated / verbatim interleaved / repeated symbols / '
+                     'rescaling verbatim block before an equation), same build routes, converters and option sets')
     rep.notes.append(f'{n_cases + len(fixed)} programs; each x {{typed, untyped}} x 3 build routes x option sets x converters')
+
+
+def fixed_list_cases():
+    """Seed-independent: `X` is rescaled by a verbatim block BEFORE the equation that reads it (and once more after)."""
+    out = []
+    for i, op in enumerate(['rescale-before', 'rescale-between', 'verb-first', 'interleave']):
+        prog = gs.Program([gs.Equation(gs.Term('var', 'Y', None), gs.Bin('+', gs.Term('var', 'X', None), gs.Term('var', 'Z', -1))),
+                           gs.VerbatimBlock(('_a = 1',)),
+                           gs.Equation(gs.Term('var', 'Z', None), gs.Bin('*', gs.Term('var', 'Y', None), gs.Num('0.5')))])
+        prog2 = gs.Program([gs.Equation(gs.Term('var', 'W', None), gs.Term('var', 'G', 1)), gs.VerbatimBlock(('pass',))])
+        out.append({'prog': repr(prog), 'prog2': repr(prog2), 'labels': list(range(2000, 2010)), 'shape': 'list:' + op,
+                    'listop': op, 'strip': False, 'strip_pick': 0.0, 'data_seed': 11 + i, 'list_seed': 5 + i})
+    return out
 
 
 def replay(ctx, rep, case):
@@ -415,7 +580,8 @@ def replay(ctx, rep, case):
     import copy
     ctx = copy.copy(ctx)   # the framework replays the corpus with the run's own ctx: do not switch T off for the run
     ctx.oracle_only = True
-    c = {k: case[k] for k in ('prog', 'labels', 'shape', 'strip', 'strip_pick', 'data_seed')}
+    c = {k: case[k] for k in ('prog', 'labels', 'shape', 'strip', 'strip_pick', 'data_seed', 'prog2', 'listop', 'list_seed')
+         if k in case}
     run_case(ctx, rep, c, [])
     print('  text:', json.dumps(c['text']))
 
